@@ -86,7 +86,11 @@ class SimulatedExecutionEnvironment(ExecutionEnvironment):
         deterministic_problem = up.model.Problem(problem.name, problem.environment)
 
         for fluent in problem.fluents:
-            default_value = problem.initial_defaults.get(fluent.type, False)
+            # the per-fluent default, which is the per-type default when the fluent
+            # was added without its own one; hidden Boolean fluents start at False
+            default_value = problem.fluents_defaults.get(fluent, None)
+            if default_value is None and fluent.type.is_bool_type():
+                default_value = False
             deterministic_problem.add_fluent(
                 fluent, default_initial_value=default_value
             )
@@ -99,7 +103,7 @@ class SimulatedExecutionEnvironment(ExecutionEnvironment):
 
         for action in problem.actions:
             if isinstance(action, up.model.contingent.sensing_action.SensingAction):
-                # Create a dummy action with no effects instead of a sensing action
+                # Create a plain action with the same preconditions and effects instead of a sensing action
                 params = OrderedDict({p.name: p.type for p in action.parameters})
                 dummy = up.model.InstantaneousAction(
                     action.name,
@@ -108,6 +112,8 @@ class SimulatedExecutionEnvironment(ExecutionEnvironment):
                 )
                 for precond in action.preconditions:
                     dummy.add_precondition(precond)
+                for effect in action.effects:
+                    dummy._add_effect_instance(effect.clone())
                 deterministic_problem.add_action(dummy)
             else:
                 deterministic_problem.add_action(action.clone())
@@ -131,10 +137,12 @@ class SimulatedExecutionEnvironment(ExecutionEnvironment):
         symbol_to_fnode = {}
         cnt = 0
         for hf in problem.hidden_fluents:
-            if not hf.is_not():
+            # a fluent can be hidden through a negative literal only
+            f = hf.arg(0) if hf.is_not() else hf
+            if f not in fnode_to_symbol:
                 s = Symbol(f"v_{cnt}")
-                fnode_to_symbol[hf] = s
-                symbol_to_fnode[s] = hf
+                fnode_to_symbol[f] = s
+                symbol_to_fnode[s] = f
                 cnt += 1
 
         constraints = []
